@@ -10,7 +10,7 @@
        quotient, and with one indeterminate every term of r has lower degree than the divisor. *)
 From mathcomp Require Import all_ssreflect all_algebra.
 From SsrMultinomials Require Import mpoly.
-From NP Require Import Base Divmod DivmodP DivmodTerm DivmodExact DivmodCut DivmodCutP GenDivmod BridgeDivmod.
+From NP Require Import Base Divmod DivmodP DivmodTerm DivmodExact DivmodCut DivmodCutP DivmodCutTerm GenDivmod BridgeDivmod.
 Set Implicit Arguments. Unset Strict Implicit. Unset Printing Implicit Defensive.
 Import GRing.Theory Num.Theory.
 Local Open Scope ring_scope.
@@ -119,7 +119,18 @@ Theorem C05_cutoff_remainder (F : numFieldType) (eps : F) fuel es es' (e : elem 
   forall e', e' \in es' -> `|cand_coef e2 m e'| < eps.
 Proof. by move=> /divmod_cut_stops; exact: candidate_cut_none. Qed.
 
-(* a cut-off that is not positive skips nothing: the loop is the one the termination theorem is about *)
+(* TERMINATION FOR EVERY CUT-OFF (whatever it skips): per element, the SET of dividend monomials that the leading monomial
+   divides decreases in the lexicographic order on strictly descending lists, which is well-founded over a well-order *)
+Theorem C05_terminates_for_every_cutoff (F : numFieldType) (eps : F) D (fs gs : seq (spoly F)) :
+  all (wp D) fs -> all (wp D) gs -> exists fuel out, divmod_cut eps fuel fs gs = Ok out.
+Proof. exact: divmod_cut_terminates. Qed.
+
+(* ... and for every search that only proposes pairs (e2, e1), e2 | e1, at which some element takes part *)
+Theorem C05_terminates_for_any_good_search (F : fieldType) D (cand : seq (elem F) -> option (mono * mono)) (fs gs : seq (spoly F)) :
+  good_search D cand -> all (wp D) fs -> all (wp D) gs -> exists fuel out, divmod_with cand fuel fs gs = Ok out.
+Proof. by move=> good; apply: (divmod_with_terminates good). Qed.
+
+(* a cut-off that is not positive skips nothing: the loop is the one of Divmod.v *)
 Theorem C05_cutoff_zero (F : numFieldType) (eps : F) fuel fs gs :
   eps <= 0 -> divmod_cut eps fuel fs gs = divmod fuel fs gs.
 Proof. by move=> e0; exact: divmod_cut0. Qed.
@@ -172,4 +183,6 @@ Print Assumptions C05_identity_for_any_search.
 Print Assumptions C05_identity_for_every_cutoff.
 Print Assumptions C05_cutoff_remainder.
 Print Assumptions C05_cutoff_zero.
+Print Assumptions C05_terminates_for_every_cutoff.
+Print Assumptions C05_terminates_for_any_good_search.
 Print Assumptions C05_cutoff_example.
